@@ -493,17 +493,25 @@ class CacheSim(object):
         self.next_version[key] = k + 1
         data = gir_text(key, k, self.cfg['ntypes'], self.cfg['include_base'])
         self.fs.tick(self._delta())
+        prev = self.fs.lookup(SOURCES[key])
+        prev_mtime = prev.mtime_ns if prev is not None else 0
         node = self.fs.env_write_file(SOURCES[key], data, replace=(mode in ('replace', 'preserved')))
         if mode == 'preserved':
             # installed by a tool that preserves time stamps (dpkg, rsync -t, cp -p): the new file
             # carries an mtime from the past -- but one that is later than the moment the data of
             # the current cache entry was written, so the entry is older than its source and an
             # mtime comparison can and must still reject it
-            entry = self.fs.lookup(self.entry_path(key)) if self.fs.lookup(self.cachedir) else None
-            if entry is not None and 'wns' in entry.tag:
-                t2 = min(self.fs.now_ns, entry.tag['wns'] + self._clock_rng.choice((1_000, 50_000, 3_000_000)))
-                if t2 > entry.tag['wns']:
-                    node.mtime_ns = t2
+            # ... in whichever cache directory processes have been using (XDG_CACHE_HOME or the
+            # ~/.cache fallback), and later than the previous version of the source itself
+            floor = prev_mtime
+            name = hashlib.sha1(SOURCES[key].encode('utf-8')).hexdigest()
+            for d in self._candidate_cachedirs():
+                entry = self.fs.lookup(d + '/' + name)
+                if entry is not None and 'wns' in entry.tag:
+                    floor = max(floor, entry.tag['wns'])
+            t2 = min(self.fs.now_ns, floor + self._clock_rng.choice((1_000, 50_000, 3_000_000)))
+            if t2 > floor:
+                node.mtime_ns = t2
         node.tag['src'] = (key, k)
         self.cur_version[key] = k
         self.version_log.setdefault(key, []).append((self.world.seq + 1, k))
